@@ -166,7 +166,7 @@ def gen_cases(rng, n, quick):
 
 
 def run(ctx, out, replay=None):
-    n = 600 if ctx.quick() else 6000
+    n = 600 if ctx.quick() else 5000
     out.rule = ("allocations from random dyadic guillotine partitions (also sparse, grid, sliver layouts), occupancy maps "
                 "empty/single/multi/full/fixed, depths 0-3. (a) chains: 1-4 random refinement operations, each applied to the "
                 "result of the previous one (refine with thresholds equal to occurring ratios, uniform depth, griddify); "
@@ -184,3 +184,4 @@ def run(ctx, out, replay=None):
     fr.run_cases(ctx, out, cases, ac.run_any, ac.any_to_coq, oracle, failure_key, HEADER_H,
                  dist_key=ac.any_dist_key, nontrivial=ac.nontrivial, shard=150, shrink=ac.any_shrink)
     out.extra["history_cases"] = sum(1 for c in cases if ac.is_hist(c))
+    out.extra["variants"] = ac.variant_counts(cases)
